@@ -2673,11 +2673,23 @@ func (m *Machine) detectQueueDuplicates(mutationType MutationType,
 	if m.disposing.Load() {
 		return false
 	}
-	// check if this mutation is already scheduled
-	found, _, _ := m.IsQueued(mutationType, states, true, true, 0, isCheck,
-		PositionAny)
+	// check if this mutation is already scheduled, with nothing scheduled after
+	// it (a later mutation may counter it)
+	m.queueMx.RLock()
+	defer m.queueMx.RUnlock()
 
-	return found
+	for i := len(m.queue) - 1; i >= 0; i-- {
+		mut := m.queue[i]
+		if mut.IsCheck != isCheck {
+			continue
+		}
+
+		return mut.Type == mutationType && len(mut.Args) == 0 &&
+			len(mut.Called) == len(states) &&
+			slicesEvery(mut.Called, m.Index(states))
+	}
+
+	return false
 }
 
 // Transition returns the current transition, if any.
